@@ -2,7 +2,7 @@
 """Detection-power probe for the sanitizer side of a check: weakens one memory order (or applies any one-line substitution) in a scratch
 export of /repo's HEAD and runs a check against it (VERIF_REPO / VERIF_OUT; /repo itself is never touched).
 
-usage: tools/relaxrun.py <name> <PROPERTY> <file>:<line>:<from>:<to> [more edits...] [--tier quick|thorough] [--seed N]
+usage: tools/relaxrun.py <name> <PROPERTY> <file>:<line>:<from>:<to> (or file@@line@@from@@to) [more edits...] [--tier quick|thorough] [--seed N]
 Appends one line to /verif/seeded/own-mutants.log.
 """
 import os, re, shutil, subprocess, sys, time, json
@@ -20,7 +20,7 @@ def main():
     subprocess.run("git -C /repo archive HEAD | tar -x -C %s" % scr, shell=True, check=True)
     desc = []
     for e in edits:
-        f, ln, a, b = e.split(":", 3); ln = int(ln)
+        f, ln, a, b = e.split("@@", 3) if "@@" in e else e.split(":", 3); ln = int(ln)      # use @@ as separator when the text contains colons
         p = os.path.join(scr, f); L = open(p).read().split("\n")
         if a not in L[ln-1]: print("EDIT DOES NOT MATCH %s:%d: %r" % (f, ln, L[ln-1])); return 2
         L[ln-1] = L[ln-1].replace(a, b, 1); open(p, "w").write("\n".join(L)); desc.append("%s:%d %s->%s" % (f, ln, a, b))
